@@ -38,6 +38,7 @@ type Ctx struct {
 	printedKnow  map[string]bool
 	transcripts  []transcriptRec
 	retryExpired int
+	children     map[int]bool // process groups of running children (killed when the check itself is terminated)
 }
 
 type transcriptRec struct{ base, hash, file string }
@@ -102,6 +103,16 @@ func (c *Ctx) Pick(q, t int) int {
 }
 
 func (c *Ctx) Close() { _ = os.RemoveAll(c.Tmp) }
+
+// Abort is called when the check itself is terminated (SIGTERM/SIGINT): its children and scratch files must not outlive it.
+func (c *Ctx) Abort() {
+	c.mu.Lock()
+	for pid := range c.children {
+		_ = syscall.Kill(-pid, syscall.SIGKILL)
+	}
+	c.mu.Unlock()
+	_ = os.RemoveAll(c.Tmp)
+}
 
 // ReplayDir returns (and creates) /verif/replays/<prop>.
 func (c *Ctx) ReplayDir() string {
@@ -264,6 +275,17 @@ func (c *Ctx) runChildOnce(mode string, args any, timeout time.Duration, extraEn
 		res.ExitErr = err
 		return res
 	}
+	c.mu.Lock()
+	if c.children == nil {
+		c.children = map[int]bool{}
+	}
+	c.children[cmd.Process.Pid] = true
+	c.mu.Unlock()
+	defer func() {
+		c.mu.Lock()
+		delete(c.children, cmd.Process.Pid)
+		c.mu.Unlock()
+	}()
 	done := make(chan error, 1)
 	go func() { done <- cmd.Wait() }()
 	select {
